@@ -1370,8 +1370,8 @@ class Frame(object):
                     break
             else:
                 return vals[-1]
-        if d is not None:
-            return Const(d)
+        if d is not None and all(isinstance(v, Const) and isinstance(v.value, bool) for v in vals if self.truth(v) is not None):
+            return Const(d)          # (as a value `x or <truthy object>` is x-or-the-object, not True)
         op = ' or ' if isinstance(node.op, ast.Or) else ' and '
         return Sym('(%s)' % op.join(render(v) for v in vals))
 
@@ -1633,6 +1633,13 @@ class Frame(object):
                 if r is not None:
                     return r
                 return Sym('%s(%s)' % (n, self._argtext(args, kwargs)))
+            if isinstance(callee, ClassV):
+                # a local that holds a class is called: construct it (locals are propagated by value)
+                record(callee.ci.name)
+                return self._construct(callee.ci, args, kwargs, st, node)
+            if isinstance(callee, Sym) and n not in self.fi.params:
+                record(callee.text)
+                return Sym('%s(%s)' % (callee.text, self._argtext(args, kwargs)))
             if n in ('bytearray', 'bytes'):
                 record(n)
                 if not args:
